@@ -377,7 +377,7 @@ func (vc *VC) oblige(st *State, name, kind string, goal *Term, tags []string, sr
 	o := &Obligation{Name: full, Tags: tags, Kind: kind, PC: st.pc, Goal: goal, NAssume: len(vc.assumes), Taint: st.taint, Src: src, Fn: vc.fnName()}
 	vc.obls = append(vc.obls, o)
 	// once asserted, later code may rely on it (end-of-path obligations have no later code)
-	if kind != "loop-keep" && kind != "post" && kind != "unwind" {
+	if kind != "loop-keep" && kind != "post" && kind != "unwind" && !recordedFindings[full] {
 		vc.assumes = append(vc.assumes, Implies(st.pc, goal))
 	}
 }
